@@ -266,6 +266,7 @@ func init() {
 		// exhaustive small scopes: only in the thorough tier, only in the first shard
 		if c.Tier == "thorough" && c.Seed%1000 == 0 {
 			c17DagExhaustive(c)
+			c17VerExhaustive(c)
 		}
 		for i := 0; i < c.N; i++ {
 			switch k := c.Rng.Intn(20); {
